@@ -7,6 +7,7 @@ each recipe dropped at a random point of a random program on a single-family or 
 Oracle: the canonical observable state (dsim/ref/obsstate.py) immediately before and after EVERY call that raises must be
 equal; multi-step helpers are judged per constituent transaction.
 """
+import inspect
 import math
 from decimal import Decimal, ROUND_DOWN
 
@@ -47,6 +48,28 @@ FLOAT_API = {
     "gmx2": ("deposit", "withdraw"),
 }
 FLOAT_BROKER = ("swap_by_from", "swap_by_to", "subtract_from_balance")
+# the parameters these methods have on the tree the harness was written against. A parameter that is NOT listed here is new:
+# an operation flagged "probe_new" sets every new optional numeric parameter to an extreme value (1e30 / -1), so that a
+# refusal decided by a new argument (a slippage bound, a cap) is held to the same rule: refused => nothing changed
+KNOWN_PARAMS = {
+    "add_liquidity": {"lower_quote_price", "upper_quote_price", "quote_max_amount", "base_max_amount"},
+    "add_liquidity_by_tick": {"lower_tick", "upper_tick", "base_max_amount", "quote_max_amount", "sqrt_price_x96", "tick", "trim_tick"},
+    "add_liquidity_by_value": {"lower_tick", "upper_tick", "value_to_use", "trim_tick"},
+    "collect_fee": {"position", "max_collect_amount0", "max_collect_amount1", "remove_dry_pool", "collect_to_user"},
+    "buy": {"base_token_amount", "price", "instrument_name", "amount", "price_in_token", "price_in_usd", "max_mark_price_multiple"},
+    "sell": {"base_token_amount", "price", "instrument_name", "amount", "price_in_token", "price_in_usd", "max_mark_price_multiple"},
+    "swap": {"from_amount", "from_token", "to_token", "price", "throw_action"},
+    "supply": {"token_info", "amount", "collateral"}, "withdraw": {"token_info", "amount"}, "borrow": {"token_info", "amount"},
+    "repay": {"borrow_token", "payback_amount", "repay_with_collateral", "repay_collateral_token"},
+    "open_deposit_mint": {"deposit_eth_amount", "osqth_mint_amount", "vault_key", "uni_position"},
+    "open_deposit_mint_by_collat_rate": {"deposit_eth_amount", "collateral_rate", "vault_key", "uni_position"},
+    "deposit": {"vault_key", "eth_value", "amount", "long_amount", "short_amount"},
+    "burn_and_withdraw": {"vault_key", "osqth_burn_amount", "withdraw_eth_amount"},
+    "buy_squeeth": {"osqth_amount", "eth_amount"}, "sell_squeeth": {"osqth_amount", "eth_amount"},
+    "buy_glp": {"token", "amount"}, "sell_glp": {"token", "glp_amount"},
+    "swap_by_from": {"from_token", "to_token", "amount", "prices", "fee_rate"}, "swap_by_to": {"from_token", "to_token", "amount", "prices", "fee_rate"},
+    "subtract_from_balance": {"token", "amount"},
+}
 FLOAT_OPS = ("uni", "aave", "sq", "deribit", "gmx1", "gmx2", "broker")
 
 BASE_PRICE = {"WETH": 1800.0, "ETH": 1800.0, "WBTC": 29000.0, "BTC": 29000.0, "BTC.B": 29000.0, "USDC": 1.0, "USDC.E": 1.0, "USDT": 1.001,
@@ -369,6 +392,8 @@ def generate(seed: int, tier: str = "quick") -> dict:
                 o["bar"], o["phase"] = b, PHASES[ph]
                 if o["op"].split(".")[0] in FLOAT_OPS and rf.random() < 0.1:
                     o["float"] = True  # the documented `Decimal | float` signature taken at its word
+                if o["op"].split(".")[0] in FLOAT_OPS and rf.random() < 0.1:
+                    o["probe_new"] = rf.choice(["1e30", "-1", "1e30"])
                 program.append(o)
     if any(o.get("float") for o in program):
         faults.append({"kind": "float_arguments"})
@@ -449,6 +474,7 @@ class UnchangedOracle(Oracle):
             for meth, kind in CONSTITUENTS.get(self.kinds[name], {}).items():
                 self._wrap(sim, m, meth, kind)
         self.float_on, self.fdepth = False, 0
+        self.probe_new, self.sim_ = None, sim
         for name, m in sim.markets.items():
             for meth in FLOAT_API.get(self.kinds[name], ()):
                 self._floatify(m, meth)
@@ -486,8 +512,22 @@ class UnchangedOracle(Oracle):
     def _floatify(self, obj, meth):
         orig = getattr(obj, meth)
         oracle = self
+        new_numeric = []
+        try:
+            for n, prm in list(inspect.signature(getattr(type(obj), meth)).parameters.items())[1:]:
+                ann = str(prm.annotation)
+                if (n not in KNOWN_PARAMS.get(meth, ()) and prm.default is not inspect.Parameter.empty and prm.kind in (prm.POSITIONAL_OR_KEYWORD, prm.KEYWORD_ONLY)
+                        and ("Decimal" in ann or "float" in ann or "int" in ann) and "bool" not in ann):
+                    new_numeric.append(n)
+        except (TypeError, ValueError):
+            pass
 
         def wrapper(*a, **k):
+            if oracle.probe_new and oracle.fdepth == 0 and new_numeric:
+                k = dict(k)
+                for n in new_numeric:
+                    k.setdefault(n, Decimal(oracle.probe_new))
+                oracle.sim_.count("probe:new_optional_parameter_set_to_an_extreme")
             if oracle.float_on and oracle.fdepth == 0:
                 a = tuple(float(x) if isinstance(x, Decimal) else x for x in a)
                 k = {n: (float(x) if isinstance(x, Decimal) else x) for n, x in k.items()}
@@ -529,6 +569,7 @@ class UnchangedOracle(Oracle):
         self.cur_op = op
         self.judged_state = None
         self.float_on, self.fdepth = bool(op.get("float")), 0
+        self.probe_new = op.get("probe_new")
         if self.float_on:
             sim.count("fault:float_arguments")
         kind = "helper" if op["op"] in HELPER_OPS else "atomic"
@@ -538,6 +579,7 @@ class UnchangedOracle(Oracle):
         fr = self.stack[0] if self.stack else None
         self.stack = []
         self.float_on = False
+        self.probe_new = None
         if fr is None:
             return
         eid = op.get("entry")
